@@ -26,6 +26,9 @@ Proof. vm_compute. reflexivity. Qed.
 Lemma gen_unknown_check_ok : forallb unknown_check_ok gen_tools = true.
 Proof. vm_compute. reflexivity. Qed.
 
+Lemma gen_doc_order_ok : forallb tool_doc_order_ok gen_tools = true.
+Proof. vm_compute. reflexivity. Qed.
+
 Lemma in_gen {P : tool -> bool} t : forallb P gen_tools = true -> In t gen_tools -> P t = true.
 Proof. intros H Hin. rewrite forallb_forall in H. auto. Qed.
 
@@ -455,3 +458,26 @@ Qed.
 Lemma string_value_skips_option pre name v post dflt :
   ~ In name pre -> is_dash v = true -> string_value (pre ++ name :: v :: post) name dflt = dflt.
 Proof. intros H Hv. unfold string_value. rewrite typed_reads_next_token by auto. rewrite Hv. reflexivity. Qed.
+
+(* ---------------------------------------------------------------- documented order = order read *)
+Lemma documented_order_read t b argv i u :
+  In t gen_tools -> In b (t_blocks t) -> block_option argv b = Ret (Some i) ->
+  (num_args argv i = List.length (doc_full b) \/ num_args argv i = List.length (doc_mand b)) ->
+  In u (b_uses b) -> guard_holds (u_guard u) (num_args argv i) = true -> 1 <= u_k u ->
+  exists d, nth_error (if num_args argv i =? List.length (doc_full b) then doc_full b else doc_mand b) (u_k u - 1) = Some d
+            /\ compat d (u_kind u) = true.
+Proof.
+  intros Ht Hb _ Hn Hu Hg Hk.
+  pose proof (in_gen t gen_doc_order_ok Ht) as H. unfold tool_doc_order_ok in H.
+  rewrite forallb_forall in H. specialize (H b Hb). unfold doc_order_ok in H.
+  apply andb_true_iff in H as [H _]. apply andb_true_iff in H as [H _]. apply andb_true_iff in H as [Hfull Hmand].
+  assert (G : forall docs, line_ok b docs = true -> num_args argv i = List.length docs ->
+              exists d, nth_error docs (u_k u - 1) = Some d /\ compat d (u_kind u) = true).
+  { intros docs Hl Hlen. unfold line_ok in Hl. rewrite forallb_forall in Hl. specialize (Hl u Hu).
+    unfold use_follows_doc in Hl. rewrite <- Hlen, Hg in Hl.
+    replace (1 <=? u_k u) with true in Hl by (symmetry; apply Nat.leb_le; exact Hk). simpl in Hl.
+    destruct (nth_error docs (u_k u - 1)) as [d|]; [|discriminate]. exists d; auto. }
+  destruct (Nat.eqb_spec (num_args argv i) (List.length (doc_full b))) as [E|E].
+  - apply G; auto.
+  - destruct Hn as [Hn|Hn]; [contradiction|]. apply G; auto.
+Qed.
